@@ -174,7 +174,8 @@ def run_xh(o, exclude=()):
 def run_symx(o, exclude=()):
     from vf.symx import Engine
     e = Engine(bv=o.opts.get("bv"), fp=o.opts.get("fp", False), timeout_s=o.timeout,
-               query_timeout_ms=o.opts.get("query_timeout_ms", 60000))
+               query_timeout_ms=o.opts.get("query_timeout_ms", 60000), lazy=o.opts.get("lazy", False),
+               shard=o.opts.get("shard"))
     w0 = time.time()
     fn = o.fn
     if exclude:
@@ -197,7 +198,8 @@ def run_symx(o, exclude=()):
         out["messages"] = [(status, str(model))]
     # vacuity witness: satisfy the precondition on the first path, replay concretely
     if o.twin and status in ("proved",):
-        e2 = Engine(bv=o.opts.get("bv"), fp=o.opts.get("fp", False), timeout_s=min(o.timeout, 60))
+        e2 = Engine(bv=o.opts.get("bv"), fp=o.opts.get("fp", False), timeout_s=min(o.timeout, 300),
+                    query_timeout_ms=300000, lazy=o.opts.get("lazy", False))
 
         def twin(eng):
             r = o.fn(eng)
